@@ -56,7 +56,11 @@ def R1_step_polarity(run):
     # fixed side uses token A iff a_to_b == exact_in, with round_up = exact_in
     facts = run.facts
     for name, ru_is_exact in ((SM + "try_get_amount_fixed_delta", True), (SM + "get_amount_fixed_delta", True), (SM + "get_amount_unfixed_delta", False)):
-        g = facts.need_fn(name)
+        g = facts.fn(name)
+        if g is None:
+            # the selector was written into compute_swap: the polarity table above decides the same calls there
+            run.ok("R1", "%s[written in place]" % name.rsplit("::", 1)[-1], detail="selector no longer exists as a function; its choice is decided on compute_swap (polarity table, R4 amounts)")
+            continue
         run.touch(g)
         for ctx in preach.contexts(["amount_specified_is_input", "a_to_b"]):
             ei, ab = ctx["amount_specified_is_input"], ctx["a_to_b"]
@@ -335,18 +339,31 @@ def _step_fields(fn, ctx):
     return out
 
 
+def _prim_flag(s):
+    """For a direct call of a curve primitive (the selector written in place): "exact" when its round-up flag is the
+    amount_specified_is_input parameter, "inverse" when it is its negation, else None."""
+    if s[0] == "call" and s[1] in (TM + "get_amount_delta_a", TM + "get_amount_delta_b", TM + "try_get_amount_delta_a", TM + "try_get_amount_delta_b") and len(s[2]) == 4:
+        f = strip(s[2][3])
+        if is_param(f, "amount_specified_is_input"):
+            return "exact"
+        if f[0] == "un" and f[1] == "Not" and is_param(strip(f[2]), "amount_specified_is_input"):
+            return "inverse"
+    return None
+
+
 def _is_fixed(t):
     s = strip(t)
     if s[0] == "call" and s[1] in (SM + "get_amount_fixed_delta",):
         return True
-    if s[0] == "call" and s[1].endswith("AmountDeltaU64::value") and mentions(s, lambda x: x[0] == "call" and x[1] == SM + "try_get_amount_fixed_delta"):
+    if s[0] == "call" and s[1].endswith("AmountDeltaU64::value") and mentions(s, lambda x: x[0] == "call" and (x[1] == SM + "try_get_amount_fixed_delta" or _prim_flag(x) == "exact")):
         return True
-    return False
+    # the fixed side rounds as the mode says (up for an input, down for an output); which token: the polarity table (R1)
+    return _prim_flag(s) == "exact"
 
 
 def _is_unfixed(t):
     s = strip(t)
-    return s[0] == "call" and s[1] == SM + "get_amount_unfixed_delta"
+    return (s[0] == "call" and s[1] == SM + "get_amount_unfixed_delta") or _prim_flag(s) == "inverse"
 
 
 def R4_fee_and_amounts(run):
@@ -470,6 +487,12 @@ def R4_fee_and_amounts(run):
     pv0 = prov_of(fn)
     for bi, t in fn.calls():
         p = callee_path(t)
+        if p in (TM + "get_amount_delta_a", TM + "get_amount_delta_b", TM + "try_get_amount_delta_a", TM + "try_get_amount_delta_b") and not fn.blocks[bi]["c"]:
+            # a selector written in place: the primitives themselves on (current price, <next/target price>, liquidity, flag)
+            args = [pv0.operand(a, bi, len(fn.blocks[bi]["s"])) for a in t["a"]]
+            ok = is_param(args[0], "sqrt_price_current") and is_param(args[2], "liquidity") and _prim_flag(("call", p, tuple(args))) is not None
+            run.check("R4", "curve-args@%s:bb%d" % (p.rsplit("::", 1)[-1], bi), ok, "%s is not called with (current price, <next/target price>, liquidity, [!]exact_in)" % p,
+                      loc=fn.loc(t["l"]), found=str([sh(a, 40) for a in args]), detail="(sqrt_price_current, _, liquidity, [!]exact_in)")
         if p in (SM + "get_amount_fixed_delta", SM + "get_amount_unfixed_delta", SM + "try_get_amount_fixed_delta"):
             args = [pv0.operand(a, bi, len(fn.blocks[bi]["s"])) for a in t["a"]]
             ok = is_param(args[0], "sqrt_price_current") and is_param(args[2], "liquidity") and is_param(args[3], "amount_specified_is_input") and is_param(args[4], "a_to_b")
@@ -676,7 +699,7 @@ def R6_reach_target_decision(run):
         at = dec[0]
         c = strip(at.term)
         src = strip(c[2][0])
-        ok = mentions(src, lambda s: s[0] == "call" and s[1].endswith("try_get_amount_fixed_delta"))
+        ok = mentions(src, lambda s: s[0] == "call" and (s[1].endswith("try_get_amount_fixed_delta") or (s[1].startswith(TM + "try_get_amount_delta_") and _prim_flag(s) == "exact")))
         budget = [strip(x) for x in leaves(c[2][1])]
         ok = ok and all(is_param(x, "amount_remaining") or mentions(x, lambda s: s[0] == "call" and s[1].endswith("checked_mul_div")) for x in budget)
         pvt = prov_assuming(fn, [(at, True)])
